@@ -13,6 +13,7 @@ Z3_TIMEOUT_MS = int(os.environ.get("PYVC_Z3_TIMEOUT_MS", "10000"))
 FEAS_TIMEOUT_MS = int(os.environ.get("PYVC_FEAS_TIMEOUT_MS", "400"))
 CVC5_TIMEOUT_S = int(os.environ.get("PYVC_CVC5_TIMEOUT_S", "20"))
 RETRY_FACTOR = int(os.environ.get("PYVC_RETRY_FACTOR", "8"))
+_retry_budget = [float(os.environ.get("PYVC_RETRY_BUDGET_S", "240"))]  # seconds of second attempts per process
 
 
 class OutsideSubset(Exception):
@@ -157,9 +158,13 @@ def check_valid(hyps, goal, timeout_ms=None):
         return "discharged", "cvc5", time.time() - t0, None
     # a verdict must not flip because the machine is busy: when z3 ran out of (wall-clock) time rather than gave
     # up, ask once more with a budget several times larger (only ever reached by queries that would otherwise be undecided)
-    if timeout_ms is None and any(w in s.reason_unknown() for w in ("timeout", "canceled")):
-        s.set("timeout", RETRY_FACTOR * Z3_TIMEOUT_MS)
+    if timeout_ms is None and _retry_budget[0] > 0 and any(w in s.reason_unknown() for w in ("timeout", "canceled")):
+        # (the second attempts of one process share a budget: a tree on which many queries are genuinely out of reach
+        # must not make the check run for hours)
+        t1 = time.time()
+        s.set("timeout", int(min(RETRY_FACTOR * Z3_TIMEOUT_MS, _retry_budget[0] * 1000)))
         r = s.check()
+        _retry_budget[0] -= time.time() - t1
         if r == z3.unsat:
             return "discharged", "z3 (second attempt, longer budget)", time.time() - t0, None
         if r == z3.sat:
